@@ -26,7 +26,7 @@ fn group_rels<G: CurveGroup>(out: &mut Vec<Rel>, c: Arc<Ctx<G>>, tier: Tier, wei
     let q = |n: u32| (tier.pick(n, n * 15) * weight / 4).max(8);
     let wmax = tier.pick(8u64, 12u64);
     let cc = c.clone();
-    out.push(Rel::new(format!("plain/{}", c.name), q(400), 12 * c.n + 40, move |t, o| shipped::plain::<G>(&cc, t, o)).shrink_iters(400));
+    out.push(Rel::new(format!("plain/{}", c.name), q(400), 14 * c.n + 72, move |t, o| shipped::plain::<G>(&cc, t, o)).shrink_iters(400));
     let cc = c.clone();
     out.push(Rel::new(format!("wnaf/{}", c.name), q(240), 6 * c.n + 40, move |t, o| shipped::wnaf::<G>(&cc, wmax, t, o)).shrink_iters(400));
     let cc = c.clone();
@@ -113,6 +113,14 @@ fn relations(tier: Tier) -> Vec<Rel> {
     te!(ark_ed25519::EdwardsConfig, "ed25519.TE", 4, 5000);
     te!(ark_test_curves::ed_on_bls12_381::EdwardsConfig, "test.ed_on_bls12_381.TE", 4, 5000);
 
+    // ---- very wide fixed-base tables (hints of 70000 .. 2^20 scalars) on two cheap curves
+    {
+        let c = Ctx::new("ed_on_bls12_381.TE", te_pts::<ark_ed_on_bls12_381::JubjubConfig>(), false);
+        out.push(Rel::new("batch-wide/ed_on_bls12_381.TE", tier.pick(6, 60), 10 * c.n + 64, move |t, o| shipped::batch_wide::<TeProj<ark_ed_on_bls12_381::JubjubConfig>>(&c, t, o)).shrink_iters(10));
+        let c = Ctx::new("secp256k1", sw_pts::<ark_secp256k1::Config>(), false);
+        out.push(Rel::new("batch-wide/secp256k1", tier.pick(6, 60), 10 * c.n + 64, move |t, o| shipped::batch_wide::<SwProj<ark_secp256k1::Config>>(&c, t, o)).shrink_iters(10));
+    }
+
     // ---- toy GLV curves -----------------------------------------------------------------------------
     toy_glv::<toyglv::GlvP1>(&mut out, "toy.GlvP1", tier, true);
     toy_glv::<toyglv::GlvH4>(&mut out, "toy.GlvH4", tier, true);
@@ -132,6 +140,10 @@ fn relations(tier: Tier) -> Vec<Rel> {
                     Rel::new(format!("toy-paths/{}", $name), tier.pick(1500, 20000), 3, move |t, o| toys::sw_paths::<$cfg>(&cc, t, o))
                         .exhaustive(move || Box::new((0..np).flat_map(move |i| (0..2 * r).map(move |k| vec![i, k, mix(i, k)])))),
                 );
+                if !$big {
+                    let cc = c.clone();
+                    out.push(Rel::new(format!("toy-wnaf-wide/{}", $name), tier.pick(120, 2000), 6, move |t, o| toys::sw_wnaf_wide::<$cfg>(&cc, t, o)).shrink_iters(100));
+                }
                 let cc = c.clone();
                 let nh = toys::HINTS.len() as u64;
                 let ns = <$cfg as ark_ec::CurveConfig>::ScalarField::MODULUS_BIT_SIZE as u64 + 3;
@@ -177,7 +189,7 @@ fn _bounds<P: SWCurveConfig, Q: TECurveConfig>() {}
 fn main() {
     vh_core::engine::main(PropSpec {
         id: "C04",
-        rule: "Toy curves (9 short-Weierstrass, 6 twisted-Edwards, 4 toy GLV curves): every point of the curve x every k < 2r through mul_bigint (affine/projective input, zero-padded limb slices), *, *=, mul_bits_be with leading false bits, wNAF for every window (fresh table, explicit table, longer table, too-short table => None), and every point x 7 table-size hints x every declared scalar size x all scalars through BatchMulPreprocessing / batch_mul, against the affine chord-and-tangent / Edwards-law oracle of vh_core::curve; toy GLV: every (k, P) of the subgroup. Shipped curves (11 GLV configurations + 13 others): points are identity, +-G, small and random multiples of G and (for paths that are plain double-and-add) points of the whole curve built from an arbitrary x / y; scalars are edge-biased (0, 1, 2, r-1, r-2, (r+-1)/2, r-small, 2^j, 2^j+-1, runs of ones, periodic bit patterns, small, uniform) and, for mul_bigint, raw limb slices >= r, = 2^(64N)-1, shorter than N, longer than N (zero padded and with non-zero high limbs); reference = right-to-left binary method over `+`/`double`. GLV: k = k1 + lambda k2 (mod r) with the returned signs, |k1|,|k2| <= sum of absolute basis entries, basis rows in the lattice with determinant r, endomorphism = [lambda]. A case is non-trivial when P is not the identity, k is not 0/1 and k reaches the top bit of r (or exceeds r) or has two adjacent one bits (its signed-digit recoding has a carry); distinct = distinct decoded choice sequences.",
+        rule: "Toy curves (9 short-Weierstrass, 6 twisted-Edwards, 4 toy GLV curves): every point of the curve x every k < 2r through mul_bigint (affine/projective input, zero-padded limb slices), *, *=, mul_bits_be with leading false bits, wNAF for every window (fresh table, explicit table, longer table, too-short table => None), and every point x 7 table-size hints x every declared scalar size x all scalars through BatchMulPreprocessing / batch_mul, against the affine chord-and-tangent / Edwards-law oracle of vh_core::curve; toy GLV: every (k, P) of the subgroup. Shipped curves (11 GLV configurations + 13 others): points are identity, +-G, small and random multiples of G and (for paths that are plain double-and-add) points of the whole curve built from an arbitrary x / y; scalars are edge-biased (0, 1, 2, r-1, r-2, (r+-1)/2, r-small, 2^j, 2^j+-1, runs of ones, periodic bit patterns, small, uniform) and, for mul_bigint, raw limb slices >= r, = 2^(64N)-1, shorter than N, longer than N (zero padded and with non-zero high limbs), and integers of arbitrary width (1..N+8 limbs: all ones, edge limbs, 2^(64j)*hi+small, multiples of r plus an edge scalar, uniform) followed by 0..3 zero limbs; the operators are called by value and by reference (P*s, P*&s, P*=s, P*=&s, Affine*s, Affine*&s) and mul_bigint also with the scalar's own BigInt; reference = right-to-left binary method over `+`/`double`. wNAF: windows 2..8 (thorough 12), one case in twelve a wider one (up to wmax+5), toy curves additionally 9..16 (relation toy-wnaf-wide/*), and every window up to 63 with a table that is too short must give None. Fixed-base tables: hints up to 5000 everywhere, 70000 and 2^20 on toy curves, 70000..2^20 with full-size scalars on two shipped curves (batch-wide/*); batches of 0..6 and of 32..40 scalars. GLV: k = k1 + lambda k2 (mod r) with the returned signs, |k1|,|k2| <= sum of absolute basis entries, basis rows in the lattice with determinant r, endomorphism = [lambda]. A case is non-trivial when P is not the identity, k is not 0/1 and k reaches the top bit of r (or exceeds r) or has two adjacent one bits (its signed-digit recoding has a carry); distinct = distinct decoded choice sequences.",
         assumptions: &[
             "the group law (+, double, ==, into_affine) is correct on the inputs used (property C03); the toy oracle does not depend on it",
             "accelerated paths (GLV, GLV-overridden mul_bigint, wNAF and batch tables on shipped curves) are only fed points of the prime-order subgroup, the group the types are documented to represent",
